@@ -91,7 +91,7 @@ func c07Alphabet() []c07Action {
 		}
 		al = append(al, c07Action{"chpw", u, ""}, c07Action{"expire", u, ""})
 	}
-	for _, m := range []string{"up", "down", "error", "first-down"} {
+	for _, m := range []string{"up", "down", "error", "first-down", "second-down", "first-error"} {
 		al = append(al, c07Action{"dir", "", m})
 	}
 	al = append(al, c07Action{"outage", "", "on"}, c07Action{"outage", "", "off"}, c07Action{"sync", "", ""})
@@ -135,6 +135,14 @@ func (c *c07Env) apply(a c07Action, seqName string) {
 		case "first-down":
 			c.dir.SetAll("up")
 			c.dir.SetMode(0, "down")
+			m.DirUp = true
+		case "second-down":
+			c.dir.SetAll("up")
+			c.dir.SetMode(1, "down")
+			m.DirUp = true
+		case "first-error":
+			c.dir.SetAll("up")
+			c.dir.SetMode(0, "error")
 			m.DirUp = true
 		}
 	case "chpw":
@@ -244,8 +252,22 @@ func (c *c07Env) apply(a c07Action, seqName string) {
 		if len(c.trace)%2 == 0 {
 			typed = strings.ToUpper(u[:1]) + u[1:]
 		}
-		r := c.env.Do(verifReq{Method: "POST", Path: "/api/v0/login", Form: url.Values{"username": {typed}, "password": {pw}}}.Build())
-		accepted := r.Code == 200 && r.Cookie("auth_cookie") != nil
+		// three password entry points: login form, basic-auth on login, basic-auth on another route
+		entry := []string{"login-form", "login-basic", "route-basic"}[(len(c.trace)+len(u))%3]
+		var r *verifResp
+		var accepted bool
+		switch entry {
+		case "login-form":
+			r = c.env.Do(verifReq{Method: "POST", Path: "/api/v0/login", Form: url.Values{"username": {typed}, "password": {pw}}}.Build())
+			accepted = r.Code == 200 && r.Cookie("auth_cookie") != nil
+		case "login-basic":
+			r = c.env.Do(verifReq{Method: "POST", Path: "/api/v0/login", UseBasic: true, BasicUser: typed, BasicPass: pw}.Build())
+			accepted = r.Code == 200 && r.Cookie("auth_cookie") != nil
+		default:
+			// a route that takes passwords and then finds no hardware token: 400 when the password was accepted, 401 otherwise
+			r = c.env.Do(verifReq{Method: "GET", Path: "/u2f/SignRequest", UseBasic: true, BasicUser: typed, BasicPass: pw}.Build())
+			accepted = r.Code != 401 && r.Code != 429 && r.Code < 500
+		}
 		var expect bool
 		var why string
 		if m.DirUp {
@@ -261,10 +283,10 @@ func (c *c07Env) apply(a c07Action, seqName string) {
 			row := store[u]
 			expect = row != nil && row.Bad == "" && !row.ColExp && row.Owner == u && row.PW == pw
 		}
-		cs := map[string]interface{}{"sequence": append([]string{}, c.trace...), "typed_user": typed, "password_kind": a.Arg, "directory_answers": m.DirUp,
+		cs := map[string]interface{}{"sequence": append([]string{}, c.trace...), "typed_user": typed, "entry_point": entry, "password_kind": a.Arg, "directory_answers": m.DirUp,
 			"primary_outage": m.Outage, "expected_accept": expect, "accepted": accepted, "status": r.Code, "basis": why,
 			"model_primary_row": m.Primary[u], "model_cache_row": m.Cache[u]}
-		cls := fmt.Sprintf("login|dir=%v|outage=%v|pw=%s|expect=%v|got=%v", m.DirUp, m.Outage, a.Arg, expect, accepted)
+		cls := fmt.Sprintf("login|%s|dir=%v|outage=%v|pw=%s|expect=%v|got=%v", entry, m.DirUp, m.Outage, a.Arg, expect, accepted)
 		if !m.DirUp {
 			st := m.Primary
 			if m.Outage {
@@ -403,6 +425,12 @@ func TestVerifC07(t *testing.T) {
 		// legitimate use of the cache
 		{A("dir", "", "down"), A("login", "alice", "cur"), A("login", "alice", "wrong"), A("outage", "", "on"), A("login", "alice", "cur"), A("login", "bob", "cur")},
 		{A("dir", "", "first-down"), A("chpw", "alice", ""), A("login", "alice", "cur"), A("login", "alice", "prev"), A("dir", "", "down"), A("login", "alice", "cur"), A("login", "alice", "prev")},
+		// one answering server is final even when a later one is unreachable / an earlier one errors
+		{A("chpw", "alice", ""), A("dir", "", "second-down"), A("login", "alice", "prev"), A("login", "alice", "prev"), A("login", "alice", "prev"), A("login", "alice", "cur")},
+		{A("chpw", "alice", ""), A("dir", "", "first-error"), A("login", "alice", "prev"), A("login", "alice", "prev"), A("login", "alice", "prev"), A("dir", "", "down"), A("login", "alice", "prev")},
+		{A("chpw", "bob", ""), A("dir", "", "second-down"), A("login", "bob", "prev"), A("login", "bob", "prev"), A("login", "bob", "prev"), A("dir", "", "down"), A("login", "bob", "prev"), A("login", "bob", "prev"), A("login", "bob", "prev")},
+		// every entry point normalises the name before the backend and the cache see it
+		{A("login", "alice", "cur"), A("login", "alice", "cur"), A("login", "alice", "cur"), A("chpw", "alice", ""), A("login", "alice", "prev"), A("login", "alice", "prev"), A("login", "alice", "prev"), A("dir", "", "down"), A("login", "alice", "prev"), A("login", "alice", "prev"), A("login", "alice", "prev"), A("login", "alice", "cur")},
 		// the directory stays final while the primary store is out
 		{A("chpw", "alice", ""), A("outage", "", "on"), A("login", "alice", "prev"), A("login", "alice", "cur"), A("dir", "", "down"), A("login", "alice", "cur")},
 		// a refreshed record replaces a tampered one
